@@ -1,18 +1,36 @@
 #!/bin/bash
-# merge_builder.sh <NAME>: merge /work/<NAME>/verif (branch work-<NAME>) into /verif, keeping our
-# copies of files that every run rewrites (evidence, MANIFEST, KNOWN_FINDINGS are merged by hand).
+# merge_builder.sh <NAME>: merge /work/<NAME>/verif (branch work-<NAME>) into /verif.
+# evidence/MANIFEST: ours (rewritten by runs). KNOWN_FINDINGS.json: union by key (ours first).
 set -u
 N=$1
 cd /verif
 git pull --no-edit -q /work/$N/verif work-$N >/tmp/merge_$N.log 2>&1
+git -C /work/$N/verif show work-$N:KNOWN_FINDINGS.json > /tmp/theirs_kf.json 2>/dev/null
 for f in $(git diff --name-only --diff-filter=U); do
   case "$f" in
-    evidence/*|MANIFEST.json|replays/*) git checkout --ours -- "$f"; git add "$f";;
+    evidence/*|MANIFEST.json|replays/*|KNOWN_FINDINGS.json) git checkout --ours -- "$f"; git add "$f";;
     *) echo "CONFLICT needs hand merge: $f";;
   esac
 done
 if git diff --name-only --diff-filter=U | grep -q .; then echo "unresolved conflicts"; exit 1; fi
 git commit -qm "Merge builder $N" 2>/dev/null
+# union of known findings
+git show HEAD~1:KNOWN_FINDINGS.json > /tmp/ours_kf.json 2>/dev/null || cp KNOWN_FINDINGS.json /tmp/ours_kf.json
+python3 - <<'PY'
+import json
+ours = json.load(open('/tmp/ours_kf.json'))
+try:
+    theirs = json.load(open('/tmp/theirs_kf.json'))
+except Exception:
+    theirs = {'findings': []}
+have = {f['key'] for f in ours['findings']}
+added = []
+for f in theirs['findings']:
+    if f['key'] not in have:
+        ours['findings'].append(f); have.add(f['key']); added.append(f['key'])
+json.dump(ours, open('/verif/KNOWN_FINDINGS.json', 'w'), indent=1)
+print('known-findings added:', added)
+PY
 python3 tools/gen_manifest.py
-git add -A; git commit -qm "MANIFEST after merging $N" 2>/dev/null
-git log --oneline | head -2
+git add -A; git commit -qm "After merging $N: MANIFEST, KNOWN_FINDINGS" 2>/dev/null
+git log --oneline | head -1
